@@ -439,12 +439,19 @@ AXES = {"x": (1, 0, 0), "y": (0, 1, 0), "z": (0, 0, 1)}
 LETTER_BASIS = {"x": ("x", "y", "z"), "y": ("y", "z", "x"), "z": ("z", "x", "y")}
 
 
-def check_string_forms(run, tree):
+def check_string_forms(run, tree, all_cases=False):
     hk = hooks()
     fi = tree.func(GD)
     run.analysed(fi)
     forms = [(l, LETTER_BASIS[l]) for l in "xyz"] + [(l.upper(), LETTER_BASIS[l]) for l in "z"] + \
             [("".join(p), p) for p in itertools.permutations("xyz")] + [("ZYX", ("z", "y", "x"))]
+    if all_cases:
+        # thorough tier: the complete domain of accepted axis strings, in every mix of upper and lower case
+        base = [(l, LETTER_BASIS[l]) for l in "xyz"] + [("".join(p), p) for p in itertools.permutations("xyz")]
+        forms = []
+        for text, want in base:
+            for mask in itertools.product((False, True), repeat=len(text)):
+                forms.append(("".join(ch.upper() if up else ch for ch, up in zip(text, mask)), want))
     for d, (a, b, c) in forms:
         construct = "%s[direction=%r]" % (GD, d)
         try:
